@@ -25,6 +25,7 @@ func (m *Mutex) Lock() {
 	for !m.m.TryLock() {
 		simrt.BlockOn("mutex", unsafe.Pointer(m))
 	}
+	simrt.NoteLock(unsafe.Pointer(m))
 }
 
 func (m *Mutex) TryLock() bool {
@@ -32,7 +33,11 @@ func (m *Mutex) TryLock() bool {
 		return m.m.TryLock()
 	}
 	simrt.Point(simrt.KLock)
-	return m.m.TryLock()
+	if m.m.TryLock() {
+		simrt.NoteLock(unsafe.Pointer(m))
+		return true
+	}
+	return false
 }
 
 func (m *Mutex) Unlock() {
@@ -46,6 +51,7 @@ func (m *Mutex) Unlock() {
 		panic("sync: unlock of unlocked mutex")
 	}
 	m.m.Unlock()
+	simrt.NoteUnlock(unsafe.Pointer(m))
 	simrt.WakeAll(unsafe.Pointer(m))
 	simrt.RunUnlockHooks()
 }
